@@ -45,6 +45,7 @@ fn real_source(text: &str, ops: &[Op]) -> Result<Vec<u8>, String> {
         4 => { use std::hash::{Hash, Hasher}; let mut h = std::collections::hash_map::DefaultHasher::new(); s.hash(&mut h); let _ = h.finish(); }
         5 => { s = s.clone(); }
         6 => { let c = s.clone(); let _ = c.source(); }
+        7 => { let _ = s.source(); s = s.clone(); }
         _ => {}
       }
     }
